@@ -83,6 +83,8 @@ func init() {
 		for _, lc := range cases {
 			less[[2]int{lc.A, lc.B}] = lc.Less
 		}
+		var omu sync.Mutex
+		obs := map[[2]int]bool{} // the relation observed on the real code
 		var wg sync.WaitGroup
 		ch := make(chan lessCase, 256)
 		for w := 0; w < runtime.NumCPU(); w++ {
@@ -107,9 +109,10 @@ func init() {
 						res.infra("signatures %d and %d of S were merged into one bucket: the universe is not separating", lc.A, lc.B)
 					case bucketPos(a, 1) != 0:
 						res.violation(Finding{Property: "C13", Aspect: "first", What: "the bucket of the first goroutine is not first", Case: cs})
-					case (pa < pb) != lc.Less:
-						res.violation(Finding{Property: "C13", Aspect: "pair", What: fmt.Sprintf("SigLess(S[%d], S[%d]) = %v in the specification, but the real order puts a %s b", lc.A, lc.B, lc.Less, map[bool]string{true: "before", false: "after"}[pa < pb]),
-							Case: cs, Expected: lc.Less, Observed: pa < pb})
+					default:
+						omu.Lock()
+						obs[[2]int{lc.A, lc.B}] = pa < pb
+						omu.Unlock()
 					}
 					var sample interface{}
 					if (lc.A*131+lc.B)%1999 == 0 {
@@ -124,7 +127,100 @@ func init() {
 		}
 		close(ch)
 		wg.Wait()
-		// random snapshots: the order must be sorted under the specification's relation
+		// The observed relation must be a strict weak order that honours the relevance contract.
+		// If it equals the specification's relation this follows from TLC's result on MC_Less; if
+		// it differs, it is judged on its own: a different but valid order is model drift, not a
+		// violation.
+		differs := 0
+		var firstDiff [2]int
+		for k, v := range obs {
+			if less[k] != v {
+				if differs == 0 || k[0]*1000+k[1] < firstDiff[0]*1000+firstDiff[1] {
+					firstDiff = k
+				}
+				differs++
+			}
+		}
+		rel := less
+		if differs > 0 {
+			rel = obs
+			n := len(S)
+			L := func(a, b int) bool { return a != b && obs[[2]int{a, b}] }
+			inc := func(a, b int) bool { return !L(a, b) && !L(b, a) }
+			allStd := func(x *absSig) bool {
+				if len(x.Fr) == 0 {
+					return false
+				}
+				for _, f := range x.Fr {
+					if f.Loc != "Stdlib" || f.Main {
+						return false
+					}
+				}
+				return true
+			}
+			hasUser := func(x *absSig) bool {
+				for _, f := range x.Fr {
+					if f.Main || f.Loc == "GoMod" || f.Loc == "GOPATH" || f.Loc == "GoPkg" {
+						return true
+					}
+				}
+				return false
+			}
+			nmain := func(x *absSig) int {
+				k := 0
+				for _, f := range x.Fr {
+					if f.Main {
+						k++
+					}
+				}
+				return k
+			}
+			bad := ""
+		search:
+			for a := 1; a <= n; a++ {
+				for b := 1; b <= n; b++ {
+					if a == b {
+						continue
+					}
+					if L(a, b) && L(b, a) {
+						bad = fmt.Sprintf("not asymmetric: S[%d] and S[%d] are each shown before the other", a, b)
+						break search
+					}
+					if allStd(&S[a-1]) && hasUser(&S[b-1]) && !L(b, a) {
+						bad = fmt.Sprintf("a bucket whose frames are all standard library (S[%d]) is not after one with user code (S[%d])", a, b)
+						break search
+					}
+					if nmain(&S[a-1]) > nmain(&S[b-1]) && !L(a, b) {
+						bad = fmt.Sprintf("S[%d] has more package-main frames than S[%d] but is not shown first", a, b)
+						break search
+					}
+					for c := 1; c <= n; c++ {
+						if c == a || c == b {
+							continue
+						}
+						if L(a, b) && L(b, c) && !L(a, c) {
+							bad = fmt.Sprintf("not transitive: S[%d] < S[%d] < S[%d] but not S[%d] < S[%d]", a, b, c, a, c)
+							break search
+						}
+						if inc(a, b) && inc(b, c) && !inc(a, c) {
+							bad = fmt.Sprintf("incomparability is not transitive on S[%d], S[%d], S[%d]", a, b, c)
+							break search
+						}
+					}
+				}
+			}
+			f := Finding{Property: "C13", Aspect: "pair", What: fmt.Sprintf("the observed order relation differs from SigLess on %d ordered pairs, first (S[%d], S[%d])", differs, firstDiff[0], firstDiff[1]),
+				Case: map[string]interface{}{"a": firstDiff[0], "b": firstDiff[1], "sig_a": S[firstDiff[0]-1], "sig_b": S[firstDiff[1]-1]}, Expected: less[firstDiff], Observed: obs[firstDiff]}
+			if bad != "" {
+				f.What += "; and the observed relation is not a valid order: " + bad
+				res.violation(f)
+			} else {
+				f.What += "; the observed relation is still a strict weak order that honours the contract on S"
+				res.drift(f)
+			}
+		}
+		less = rel
+		// random snapshots: the order must be sorted under the (observed or specified) relation
 		rng := rand.New(rand.NewSource(*c.seed))
 		n := 3000
 		if *c.tier == "thorough" {
